@@ -105,3 +105,65 @@ Definition arr_transform_gen (a : spec) (bs : list spec) : res spec :=
       end
   | [] => Err InternalError
   end.
+
+(* ---------- both functions: one answer per node, in array (= call) order ----------
+   Transform as the C++ runs it with f_node and f_leaf both arbitrary: the loop visits the nodes of the
+   array in order and asks the function of the node's class for a treespec (None: that function is absent,
+   or it returned its argument — the node's own one-level treespec / the leaf treespec).
+   A leaf is replaced by a copy of its answer.  An internal node's answer must have `arity` leaves and
+   `arity + 1` nodes (ValueError otherwise); only its ROOT node is used: it is emitted with the counters
+   summed from the pending pairs of the node's (already transformed) children. *)
+Definition one_level_arr (n : node) : list node :=
+  if is_leaf_node n then [n] else repeat leaf_node (narity n) ++ [patch n (S (narity n)) (narity n)].
+
+Fixpoint tr_all (ns : list node) (answers : list (option (list node))) (out : list node) (stack : list (nat * nat))
+         (xl xn : Z)                                  (* num_extra_leaves, num_extra_nodes *)
+  : res (list node * list (nat * nat) * list (option (list node)) * Z * Z) :=
+  match ns with
+  | [] => Ok (out, stack, answers, xl, xn)
+  | n :: ns' =>
+    match answers with
+    | [] => Err InternalError                         (* outside the model: one answer per node is supplied *)
+    | a :: answers' =>
+      let b := match a with Some b => b | None => one_level_arr n end in
+      if is_leaf_node n then
+        tr_all ns' answers' (out ++ b) ((root_leaves b, length b) :: stack)
+               (xl + (Z.of_nat (root_leaves b) - 1)) (xn + (Z.of_nat (length b) - 1))
+      else if negb (Nat.eqb (root_leaves b) (narity n)) then Err ValueError
+      else if negb (Nat.eqb (length b) (S (narity n))) then Err ValueError
+      else
+        match rev b with
+        | [] => Err InternalError
+        | m :: _ =>
+          if Nat.ltb (length stack) (narity n) then Err InternalError
+          else
+            let popped := firstn (narity n) stack in
+            let nl := sum_fst popped in
+            let nn := S (sum_snd popped) in
+            tr_all ns' answers' (out ++ [patch m nn nl]) ((nl, nn) :: skipn (narity n) stack) xl xn
+        end
+    end
+  end.
+
+(* the options of the answers actually given (an absent function's treespec carries the outer's own) *)
+Fixpoint given {A} (l : list (option A)) : list A :=
+  match l with [] => [] | Some x :: l' => x :: given l' | None :: l' => given l' end.
+
+Definition arr_transform_all (a : spec) (answers : list (option spec)) : res spec :=
+  match rev (trav a) with
+  | aroot :: _ =>
+    if negb (Nat.eqb (length answers) (length (trav a))) then Err InternalError   (* outside the model *)
+    else
+      do ns <- tr_opts (snil a) (sns a) (given answers) ;;
+      do r <- tr_all (trav a) (map (option_map trav) answers) [] [] 0 0 ;;
+      let '(out, stack, _, xl, xn) := r in
+      match stack, rev out with
+      | [_], root :: _ =>
+        if negb (Z.eqb (Z.of_nat (nleaves root)) (Z.of_nat (nleaves aroot) + xl)) then Err InternalError
+        else if negb (Z.eqb (Z.of_nat (nnodes root)) (Z.of_nat (length (trav a)) + xn)) then Err InternalError
+        else if negb (Nat.eqb (nnodes root) (length out)) then Err InternalError
+        else Ok {| trav := out; snil := snil a; sns := ns |}
+      | _, _ => Err InternalError
+      end
+  | [] => Err InternalError
+  end.
